@@ -993,8 +993,8 @@ B('c06-gm-pipe-dot-rows-swapped', ['C06', 'C15'], LEX, "    ('left', 'PIPE'),\n 
 B('c16-gm-reserved-while-dropped', ['C16', 'C20', 'C06'], RUL, "                   | WHILE\n", "")
 
 # round 11 (language features and bug fixes that break the property for the new construct or for old programs, S/T).
-# Not reported by any rule: C08-T (min/max drop Decimal zeros through filter(None, ...): value-level behaviour of one builtin),
-# C19-S (optional chaining decides by truthiness; C06 stops with ANALYSIS-ERROR on the unknown suffix operator).
+# C08-T (min/max drop Decimal zeros through filter(None, ...)) and C19-S (optional chaining decides by truthiness) were not
+# reported on arrival; C07.R12 was written for them.
 P('C01-S', 'C01', 'C01.R6'); P('C01-T', 'C01', 'C01.R6')
 P('C02-S', 'C02', 'C02.R4'); P('C02-T', 'C02', 'C02.R3')
 P('C03-S', 'C03', 'C03.R5'); P('C03-T', 'C03', 'C03.R3')
@@ -1002,7 +1002,7 @@ P('C04-S', 'C04', 'C04.R3'); P('C04-T', 'C04', 'C04.R1')
 P('C05-S', 'C05', 'C05.R3'); P('C05-T', 'C02', 'C02.R4')
 P('C06-S', 'C16', 'C16.R9'); P('C06-T', 'C06', 'C06.R2')
 P('C07-S', 'C16', 'C16.R9'); P('C07-T', 'C14', 'C14.R3')
-P('C08-S', 'C15', 'C15.R1')
+P('C08-S', 'C15', 'C15.R1'); P('C08-T', 'C07', 'C07.R12')
 P('C09-S', 'C09', 'C09.R2'); P('C09-T', 'C09', 'C09.R1')
 P('C10-S', 'C18', 'C18.R2'); P('C10-T', 'C10', 'C10.R2')
 P('C11-S', 'C11', 'C11.R2'); P('C11-T', 'C11', 'C11.R1')
@@ -1013,7 +1013,7 @@ P('C15-S', 'C15', 'C15.R1'); P('C15-T', 'C20', 'C20.R1')
 P('C16-S', 'C06', 'C06.R8'); P('C16-T', 'C16', 'C16.R9')
 P('C17-S', 'C17', 'C17.R7'); P('C17-T', 'C17', 'C17.R9')
 P('C18-S', 'C18', 'C18.R3'); P('C18-T', 'C18', 'C18.R3')
-P('C19-T', 'C19', 'C19.R1')
+P('C19-S', 'C07', 'C07.R12'); P('C19-T', 'C19', 'C19.R1')
 P('C20-S', 'C20', 'C20.R2'); P('C20-T', 'C20', 'C20.R2')
 # a new statement form the assignment analysis cannot classify must not re-key the open findings of C03 / C04
 CORPUS.append({'id': 'S/C17-S-silent', 'props': ['C03', 'C04'], 'rule': None, 'expect': 'silent', 'edits': [], 'patch': 'seeded/C17-S/patch.diff'})
